@@ -137,7 +137,11 @@ Proof.
   destruct e as [i k|i w c| | | | |]; try exact HF.
   - destruct k as [| | | | | | | | | |?|u ? ? ?]; try exact HF; try (cbn [br_st]; apply sp_print_se).
     destruct u; try exact HF; cbn [br_st]; apply sp_print_se.
-  - destruct w; try exact HF; cbn [br_st]; apply sp_print_se.
+  - destruct w as [| | | | | | | | | | | | | | | | | | | |op net src addr|];
+      try exact HF; try (cbn [br_st]; apply sp_print_se).
+    (* WOpError: a sequence of separate print calls *)
+    cbv zeta. cbn [br_st].
+    destruct net, src, addr; se.
 Qed.
 
 (* ---------- mark_first / elide_short keep the length ---------- *)
